@@ -39,8 +39,11 @@ def gen_T12():
     need(len(augs) == 2 and all(isinstance(a.op, ast.Sub) for a in augs), 'reply: expected two `allowedLength -=`')
     a_nick, a_more = sorted(augs, key=lambda a: a.lineno)
     need(ast.unparse(a_nick.value) == "byteLength(self.to or msg.nick) + len(': ')", 'reply: nick reserve changed: ' + ast.unparse(a_nick.value))
-    need(ast.unparse(a_more.value) == "len(_('(XX more messages)')) + 3", 'reply: more reserve changed: ' + ast.unparse(a_more.value))
-    reserve = len('(XX more messages)') + 3
+    need(ast.unparse(a_more.value) == 'max(map(len, suffixes)) + 3', 'reply: more reserve changed: ' + ast.unparse(a_more.value))
+    ur0 = ast.unparse(reply)
+    need("suffixes = ['(XX %s)' % _('more message'), '(XX %s)' % _('more messages')]\n" in ur0
+         and 'if minisix.PY3:\n                    suffixes = [x.encode() for x in suffixes]' in ur0,
+         'reply: the measured suffixes changed')
     strs = _consts(reply, str)
     need('more message' in strs and 'more messages' in strs and '(%i %s)' in strs and '%s %s' in strs,
          'reply: suffix strings changed')
@@ -84,13 +87,20 @@ def gen_T12():
     need(len(strips) == 1 and ast.unparse(strips[0]) == "s.strip('\\x01')", '_makeReply: strip changed')
     # ---- Misc.more: pops from the end, in order; `more <nick>` takes copies of the messages ----
     mm = ast.unparse(find_def(tree('plugins/Misc/plugin.py'), 'more', 'Misc'))
-    for piece in ('private, L = irc._mores[nick]', 'irc._mores[userHostmask] = [ircmsgs.IrcMsg(msg=m) for m in L]',
+    for piece in ('private, L = irc._mores[nick]',
                   'L = irc._mores[userHostmask]', 'msgs = L[-number:]', 'msgs.reverse()', 'L[-number:] = []',
                   'for msg in msgs:\n            irc.queueMsg(msg)'):
         need(piece in mm, 'Misc.more changed: missing `%s`' % piece.split('\n')[0])
+    # the caller of `more <nick>` gets a list of its own: copies of the messages, or (equivalent since takeMsg
+    # sends an already-sent object again, C19.F47) a copy of the list
+    need('irc._mores[userHostmask] = [ircmsgs.IrcMsg(msg=m) for m in L]' in mm or 'irc._mores[userHostmask] = L[:]' in mm,
+         'Misc.more changed: the caller of `more <nick>` must get a list of its own')
     tk = ast.unparse(find_def(tree('src/irclib.py'), 'takeMsg', 'Irc'))
-    need("if not world.testing:\n                assert not msg.tagged('emulatedEcho')\n            msg.tag('emulatedEcho', True)" in tk,
-         'Irc.takeMsg: emulated echo tagging changed')
+    need("echo = msg\n            if msg.tagged('receivedAt') or msg.tagged('emulatedEcho'):\n"
+         "                echo = ircmsgs.IrcMsg(msg=msg)\n                echo.tags.clear()\n"
+         "            echo.tag('emulatedEcho', True)\n            self.feedMsg(echo, tag=False)" in tk
+         and 'assert not msg.tagged' not in tk,
+         'Irc.takeMsg: emulated echo (an already tagged object must be sent, with a fresh echo) changed')
     # ---- irc.prefix maintenance: feedMsg learns it, doNick follows the bot's own NICK (nick first) ----
     ilt = tree('src/irclib.py')
     fm = ast.unparse(find_def(ilt, 'feedMsg', 'Irc'))
@@ -155,7 +165,6 @@ def gen_T12():
     out += 'Definition LINE_MAX : N := %d.\n' % line_max
     out += 'Definition FIXED_OVERHEAD : N := %d.  (* len of ":" + " PRIVMSG " + " :" + CRLF *)\n' % fixed
     out += 'Definition NICK_SEP : list N := %s.\n' % cstr(': ')
-    out += 'Definition MORE_RESERVE : N := %d.  (* len("(XX more messages)") + 3 *)\n' % reserve
     out += 'Definition MORE_ONE : list N := %s.\n' % cstr('more message')
     out += 'Definition MORE_MANY : list N := %s.\n' % cstr('more messages')
     out += 'Definition IRCLIB_MAX_LINE_SIZE : N := %d.\n' % mls.value
